@@ -113,6 +113,31 @@ type Dog implements Animal @bnd(s: "A B") { id: ID! name: String @owner(s: "A") 
 union U @svc(s: "A") = Cat | Dog
 `
 
+// a boundary type that belongs to abstract types of two services: Gizmo implements Tool in A and Priced in B and is a
+// member of B's union Found; every abstract type has a non-boundary member of its own service beside it
+var fixtureShared = `
+type Query {
+  tools: [Tool!]! @owner(s: "A")
+  tool: Tool @owner(s: "A")
+  priced: [Priced]! @owner(s: "B")
+  found: [Found!] @owner(s: "B")
+  gizmo(id: ID!): Gizmo @owner(s: "A")
+}
+interface Tool @svc(s: "A") { label: String }
+interface Priced @svc(s: "B") { price: Int }
+type Gizmo implements Tool & Priced @bnd(s: "A B") {
+  id: ID!
+  label: String @owner(s: "A")
+  weight: Int! @owner(s: "A")
+  price: Int @owner(s: "B")
+  stock: Int! @owner(s: "B")
+  twin: Gizmo @owner(s: "B")
+}
+type Hammer implements Tool @svc(s: "A") { label: String heft: Int! }
+type Ticket implements Priced @svc(s: "B") { price: Int seat: String! }
+union Found @svc(s: "B") = Gizmo | Ticket
+`
+
 type fixture struct {
 	Name string
 	SDL  string
@@ -122,4 +147,5 @@ var fixtures = []fixture{
 	{"movies", fixtureMovies},
 	{"single", fixtureSingle},
 	{"tricky", fixtureTricky},
+	{"shared", fixtureShared},
 }
